@@ -46,8 +46,13 @@ Definition dec_geom (cv at_ ls cs : str) : geom :=
 Definition dec_pair (s : str) : str * str :=
   match split_c eqc s with [a; b] => (unhex a, unhex b) | _ => ([], []) end.
 Definition dec_dict (s : str) : dict := map dec_pair (items comma s).
-Fixpoint join_c (sep : ascii) (l : list str) : str :=
-  match l with [] => [] | [a] => a | a :: r => a ++ sep :: join_c sep r end.
+(** output assembly is tail-recursive: a mapping of 29000 blocks prints as ~650000 characters, and the
+    extracted [app] / a naive join would need one stack frame per character *)
+Fixpoint join_acc (sep : ascii) (l : list str) (acc : str) : str :=
+  match l with [] => acc | a :: r => join_acc sep r (rev_append a (sep :: acc)) end.
+Definition join_c (sep : ascii) (l : list str) : str :=
+  match l with [] => [] | a :: r => rev_append (join_acc sep r (rev_append a [])) [] end.
+Definition tapp (a b : str) : str := rev_append (rev_append a []) b.
 Definition show_dict (d : dict) : str := join_c comma (map (fun kv => hex (fst kv) ++ eqc :: hex (snd kv)) d).
 
 Definition dec_optq (s : str) : option Q := if str_eqb s (s2l "-") then None else Some (q_of_str s).
@@ -92,7 +97,7 @@ Definition run_case (line : str) : str :=
   | [k; c1; a1; l1; cs1; c2; a2; l2; cs2] =>
       if str_eqb k (s2l "bm") then
         match block_mapping nearest_exec (dec_geom c1 a1 l1 cs1) (dec_geom c2 a2 l2 cs2) with
-        | Ok (m, cm) => s2l "OK" ++ tab :: show_dict m ++ tab :: show_dict cm
+        | Ok (m, cm) => s2l "OK" ++ tab :: tapp (show_dict m) (tab :: show_dict cm)
         | Raise e => raise_line e
         end
       else s2l "BADCASE"
